@@ -20,19 +20,19 @@ chk("C02", "model_checking",
     "Bound: the listed segment counts (no induction over N). For N > 4 breakpoints/arguments are reals: non-NaN binary64 under IEEE comparison embeds order-isomorphically and the code only compares them; N <= 4 also bit-precisely. Trusted: rustc MIR, own interpreter, z3; Kani, CBMC.",
     SMT + "; " + BMC, BOTH, "DESIGN.md §4 C02")
 chk("C03", "model_checking",
-    "(E2) PiecewiseEvaluator::new + Q evaluate calls on shared state are executed symbolically from the MIR for (N,Q) up to (8,3),(5,4) quick / (16,3),(10,4),(6,5) thorough (hundreds to ~14000 feasible paths each) and z3 proves every answer is the piece direct evaluation selects, evaluated at that argument; (E1) Kani/CBMC decides bit-equality with Piecewise::evaluate on the compiled code for (N,Q) up to (3,3) / (4,4),(5,3),(3,5); thorough adds the auxiliary state-independence harness (hook) that extends the claim to histories of any length for N<=4.",
+    "(E2) PiecewiseEvaluator::new + Q evaluate calls on shared state are executed symbolically from the MIR for (N,Q) = (8,3),(6,4),(12,3),(5,5) quick / + (10,4),(24,3),(6,5),(8,4) thorough (hundreds to ~14000 feasible paths each) and z3 proves every answer is the piece direct evaluation selects, evaluated at that argument; (E1) Kani/CBMC decides bit-equality with Piecewise::evaluate on the compiled code for (N,Q) up to (3,3) / (4,4),(5,3),(3,5); thorough adds the auxiliary state-independence harness (hook) that extends the claim to histories of any length for N<=4.",
     "Bound: sizes as listed. Larger sizes use the order-isomorphic real embedding of non-NaN binary64 (comparisons only); small sizes also bit-precisely. The state-independence harness is auxiliary: its failure is recorded, not reported as a violation.",
     SMT + "; " + BMC, BOTH, "DESIGN.md §4 C03")
 chk("C04", "proof",
-    "constrained_spline is executed symbolically AS A WHOLE from its MIR (slicing, zips, chains, closures, f_dx, segment) for 3,4 (quick) / 3..6 (thorough) knots; for every f_dx branch pattern z3's nlsat proves over ALL real knots with strictly increasing x: ends = right abscissae, both Hermite interpolation conditions per cubic, C1 continuity, harmonic-mean/zero interior slopes, 3/2-1/2 end slopes, no divisor can vanish; ends verbatim bit-precisely; left-knot rounding bound 12u per monomial for the kernel.",
+    "constrained_spline is executed symbolically AS A WHOLE from its MIR (slicing, zips, chains, closures, f_dx, segment) for 3,4,7 (quick) / 3..9 (thorough) knots; for every f_dx branch pattern z3's nlsat proves over ALL real knots with strictly increasing x: ends = right abscissae, both Hermite interpolation conditions per cubic, C1 continuity, harmonic-mean/zero interior slopes, 3/2-1/2 end slopes, no divisor can vanish; ends verbatim bit-precisely; left-knot rounding bound 12u per monomial for the kernel.",
     "Exact-arithmetic meaning of the code + left-knot rounding bound; right-knot/derivative rounding bounds (conditioning (|x|/dx)^3) are not decided. Knot counts beyond the list are outside the claim.",
     SMT, E2, "DESIGN.md §4 C04")
 chk("C05", "proof",
-    "Same whole-function encoding; z3's nlsat decides for every branch pattern, ALL real admissible knots AND EVERY real t of each interval that the cubic is monotone and stays between the knot ordinates (no sampling of t), that the branch taken equals the sign-change predicate, zero slope at extrema, collinear data -> the straight line, and coefficient-wise equality with Kruger's formulas; the sign branch of f_dx bit-precisely in FP.",
+    "Same whole-function encoding; each explored path is split by the solver into the data cases it serves (secant slopes at each interior knot differ in sign / one is zero, or not -- not read off the code's branch decisions); z3's nlsat decides for every case, ALL real admissible knots AND EVERY real t of each interval that the cubic is monotone and stays between the knot ordinates (no sampling of t), that the branch taken equals the sign-change predicate, zero slope at extrema, collinear data -> the straight line, and coefficient-wise equality with Kruger's formulas; the sign branch of f_dx bit-precisely in FP.",
     "Shape claims are about the exact-arithmetic meaning of the code (no posing of monotonicity under rounding was found that nlsat finishes); 3,4 (quick) / 3..5 knots.",
     SMT, E2, "DESIGN.md §4 C05")
 chk("C06", "proof",
-    "linear() executed symbolically as a whole from MIR for 2..4 (5) knots; for every narrow/wide pattern z3 proves running-maximum ends, the machine-epsilon threshold (also bit-precisely in FP, where `<` vs `<=` differs at exactly one float), constant narrow segments, the straight-line interpolant for every real t, non-vanishing divisors and the left-knot rounding bound 4u; Kani confirms ends/length/no-panic on the compiled code.",
+    "linear() executed symbolically as a whole from MIR for 2..4 (5) knots; for every path -- classified by the solver as narrower than / at least machine epsilon wide / both, independent of the code's branch polarity -- z3 proves running-maximum ends, the machine-epsilon threshold (also bit-precisely in FP, where `<` vs `<=` differs at exactly one float), constant narrow segments, the straight-line interpolant for every real t, non-vanishing divisors and the left-knot rounding bound 4u; Kani confirms ends/length/no-panic on the compiled code.",
     "Right-knot rounding bound (conditioning |x|/dx) not decided; knot counts beyond the list outside the claim.",
     SMT + "; Kani structure harness", BOTH, "DESIGN.md §4 C06")
 chk("C07", "proof",
@@ -54,11 +54,11 @@ chk("C11", "proof",
     "F(t)=k0.y+integral follows by the fundamental theorem of calculus (mathematical step); rounding at breakpoints is one subtraction per piece (bounded per piece by C07/C09).",
     BMC + "; " + SMT, BOTH, "DESIGN.md §4 C11")
 chk("C12", "model_checking",
-    "(E2) evaluate_v is executed symbolically from the MIR with a counting input iterator for (segments, arguments) up to (9,3),(5,4) quick / (24,3),(16,4),(8,5) thorough; z3 proves each output is the piece direct evaluation selects for the running maximum, evaluated at x_k, exactly one output per input, k-th output after exactly k pulls; (E1) Kani/CBMC decides the same bit for bit on the compiled code up to (3,3) / (4,4),(5,3).",
+    "(E2) evaluate_v is executed symbolically from the MIR with a counting input iterator for (segments, arguments) (9,3),(5,4),(16,3),(6,5) quick / + (16,4),(32,3),(8,5) thorough; z3 proves each output is the piece direct evaluation selects for the running maximum, evaluated at x_k, exactly one output per input, k-th output after exactly k pulls; (E1) Kani/CBMC decides the same bit for bit on the compiled code up to (3,3) / (4,4),(5,3).",
     "Bound: sizes as listed; real embedding of non-NaN binary64 for the large sizes (comparisons only).",
     SMT + "; " + BMC, BOTH, "DESIGN.md §4 C12")
 chk("C13", "model_checking",
-    "(E2) both merge loops are executed symbolically from the MIR for operand lengths up to (4,4),(5,3),(6,2),(1,6) quick / (5,5),(8,3),(6,4) thorough (all feasible interleavings, up to ~1400 paths): 1..N+M-1 pieces, non-decreasing non-NaN breakpoints drawn from the operands, and for every x the selected piece is COMB(piece f selects, piece g selects, this operator); (E1) Kani/CBMC decides the same on the compiled code up to (3,2) / (4,4).",
+    "(E2) both merge loops are executed symbolically from the MIR for operand lengths (4,4),(5,5),(6,3),(2,7),(1,8) quick / + (8,3),(3,8),(6,4),(4,6),(10,2) thorough (all feasible interleavings, up to ~1400 paths): 1..N+M-1 pieces, non-decreasing non-NaN breakpoints drawn from the operands, and for every x the selected piece is COMB(piece f selects, piece g selects, this operator); (E1) Kani/CBMC decides the same on the compiled code up to (3,2) / (4,4).",
     "Value clause follows by composing with C14 (coefficient-wise + and -). Bound: operand lengths as listed; real embedding for the large sizes.",
     SMT + "; " + BMC, BOTH, "DESIGN.md §4 C13")
 chk("C14", "proof",
@@ -76,10 +76,10 @@ chk("C17", "proof",
     "Reflexivity/symmetry of approx's scalar relations are the dependency's; relative_eq on the real approx code is covered only through the uninterpreted model.",
     SMT + " with uninterpreted predicates; Kani anchor", BOTH, "DESIGN.md §4 C17")
 chk("C18", "model_checking",
-    "Kani/CBMC decides bit-identical round trips for ALL non-NaN f64 contents: serde through a harness-local binary Serializer/Deserializer driving the derived impls (Knot, Poly0..8, Log, IntOfLog, IntOfLogPoly4, Segment, Piecewise with 0..3 segments), borsh (feature on) through its own reader/writer for all fixed-size forms and Segment<T>.",
-    "Not applicable parts: text formats (float printing/parsing loops of a dependency); borsh framing of Vec<Segment<T>> (CBMC does not finish).",
-    BMC, E1, "DESIGN.md §4 C18")
+    "Kani/CBMC decides bit-identical round trips for ALL non-NaN f64 contents on the compiled code: serde through a harness-local binary Serializer/Deserializer (f64, integers, bool, Option, unit, seq/tuple/struct/newtype) driving the derived impls of every serializable type (Knot, Poly0..8, Log, IntOfLog, IntOfLogPoly4, Segment, Piecewise with 0..3 segments), borsh (feature on) through its own reader/writer for every fixed-size type and Segment<T>. In addition the borsh impls that the derive macros generate inside this crate are executed symbolically from their MIR (dumped with --features borsh) for every type and Piecewise<T> with 0,1,2,3,8,33,64 (thorough +5,16,17,128,257) segments against a token tape, with borsh's own impls for f64 / [f64; N] / Vec<X> replaced by their wire contract; z3 decides that the value read back has the same shape and the same bits in every number and that the tape is consumed exactly; counterexamples are replayed through real borsh bytes natively.",
+    "Not applicable parts: text formats (float printing/parsing loops of a dependency). The compiled borsh framing of Vec<Segment<T>> does not finish in CBMC; Piecewise<T> under borsh is therefore decided from the MIR of the derived impls with the dependency's Vec impl by contract. serde beyond 3 segments is outside the claim.",
+    BMC + "; " + SMT, BOTH, "DESIGN.md §4 C18")
 chk("C19", "model_checking",
-    "Kani/CBMC decides for every byte string of each enumerated (list shape <= 3 breakpoints, total length) with all payload bytes symbolic: Arbitrary returns Err or >=1 segment with normal, sorted ends, never panics, and the result evaluates identically through all three evaluators at any f64.",
-    "Control bytes are fixed per shape (their irrelevance beyond the low bit is proved separately); piece type Poly0; <= 3 breakpoints.",
-    BMC, E1, "DESIGN.md §4 C19")
+    "(E1) Kani/CBMC decides for every byte string of each enumerated (list shape <= 3 breakpoints, total length) with all payload bytes symbolic: Arbitrary returns Err or >=1 segment with normal, sorted ends, never panics, and the result evaluates identically through all three evaluators at any f64. (E2) the impl's own logic is executed from its MIR with the dependency's decoders by contract (Vec<f64>::arbitrary = any k binary64 values incl. NaN/inf/zero/subnormal, T::arbitrary = Ok(any)/Err) for k = 1..4 with piece failures and k = 5 without (thorough +(5, failures), 6): Err or >=1 segment, all ends normal, non-decreasing, no panic; counterexamples become byte strings run natively.",
+    "Control bytes are fixed per Kani shape (their irrelevance beyond the low bit is proved separately); piece type Poly0 under Kani; <= 3 breakpoints under Kani, <= 5 (6) from the MIR.",
+    BMC + "; " + SMT, BOTH, "DESIGN.md §4 C19")
